@@ -1158,10 +1158,20 @@ Example ex_nodo_follow :
   = Ok [OCtx [("i", VInt 2)]; OAct "act_x" "{}" (Some "r")].
 Proof. split; vm_compute; reflexivity. Qed.
 
+Definition ex_nodo_state : res spec_state :=
+  Eval vm_compute in spec_run 100 ex_nodo spec_init ex_nodo_hist.
+
+Lemma ex_nodo_state_eq : spec_run 100 ex_nodo spec_init ex_nodo_hist = ex_nodo_state.
+Proof. vm_compute. reflexivity. Qed.
+
 Example ex_nodo_follows_to :
   exists k, follows_to 100 ex_nodo ex_nodo_hist (WExec "act_x" "{}" (Some "r")) k []
                        [("i", VInt 2)].
-Proof. eexists. unfold follows_to. eexists. eexists. vm_compute. repeat split; reflexivity. Qed.
+Proof.
+  unfold follows_to. eexists. exists ex_nodo_hist.
+  exists (match ex_nodo_state with Ok sp => sp | _ => spec_init end).
+  split; [reflexivity|]. split; [rewrite ex_nodo_state_eq; reflexivity|]. split; reflexivity.
+Qed.
 
 Example ex_nodo_leave :
   compute_next_steps {| o_mark := true; o_guard := true |} 100 (compile_prog ex_nodo)
